@@ -37,7 +37,9 @@ from cnfgen.formula.basecnf import BaseCNF
 RULE = ("d_*: command lines synthesised from the argparse parsers: sub-command x flag subsets (all spellings, all "
         "placements) x tokens around validator bounds x wrong arities x graph-argument shapes; distinct = distinct "
         "(tool, sub-command, argv); a case is trivial when argv is empty")
-ASSUMPTIONS = ["dispatch models argparse on the fragment: exact option strings, arguments not starting with '-' "
+ASSUMPTIONS = ["values the model keeps opaque (`?`: random vectors, graphs built from the formula's size) are not compared",
+               "tseitin with a graph FILE is `unsupported` in the model (it cannot know `G.order()`); constructed graphs are handled",
+               "dispatch models argparse on the fragment: exact option strings, arguments not starting with '-' "
                "(or negative numbers); abbreviations, --opt=value, clustered short flags, '--', -h are outside",
                "graph arguments are opaque token lists on both sides (make_graph_from_spec is stubbed): what it builds "
                "or refuses is C15's subject"]
@@ -611,7 +613,7 @@ def cases(ctx):
         if tier == "quick":
             # the quick tier runs a seed-dependent sample of the structured list (every run of `cli()` builds
             # all the parsers again: ~8 ms); the thorough tier runs all of it
-            cap = 140 if name == "php" else (70 if suite == "d_compose" else 36)
+            cap = 120 if name == "php" else (50 if suite == "d_compose" else 30)
             if len(uniq) > cap:
                 head = uniq[:12]
                 uniq = head + rng.sample(uniq[12:], cap - 12)
